@@ -588,6 +588,8 @@ impl Actor for J {
     }
 }
 struct SpawnTask(tokio::sync::oneshot::Receiver<u32>, bool, bool);
+/// set by the SpawnTask handler: its reply is on the way
+static ASKJOIN_HANDLED: AtomicBool = AtomicBool::new(false);
 struct Pj;
 impl Message<Pj> for J {
     type Reply = u32;
@@ -601,6 +603,7 @@ impl Message<SpawnTask> for J {
         let panic = m.1;
         // the task may call back into the actor that spawned it (through a weak handle: it keeps nothing alive)
         let weak = if m.2 { Some(ActorRef::downgrade(me)) } else { None };
+        ASKJOIN_HANDLED.store(true, SeqCst);
         tokio::spawn(async move {
             let v = m.0.await.unwrap_or(0);
             if let Some(r) = weak.as_ref().and_then(ActorWeak::upgrade) {
@@ -661,6 +664,36 @@ fn askjoin(rep: &mut Report) {
                     },
                 }
             }
+        }
+        // ask_join awaited next to other work in one task: whatever share of the task's cooperative-scheduling budget the
+        // siblings have used when the reply arrives, the finished task's output comes back
+        {
+            let (r, _jh) = spawn::<J>(());
+            let mut bad = None;
+            for k in 0..160u32 {
+                n += 1;
+                let (tx, rx) = tokio::sync::oneshot::channel();
+                let _ = tx.send(252u32); // the spawned task finishes at once
+                ASKJOIN_HANDLED.store(false, SeqCst);
+                // the sibling spends its k units in the very poll in which the reply is picked up
+                let spender = async {
+                    while !ASKJOIN_HANDLED.load(SeqCst) {
+                        tokio::task::yield_now().await;
+                    }
+                    for _ in 0..k {
+                        tokio::task::coop::consume_budget().await;
+                    }
+                };
+                let (_, res) = futures::join!(spender, r.ask_join(SpawnTask(rx, false, false)));
+                if !matches!(res, Ok(252)) && bad.is_none() {
+                    bad = Some((k, format!("{res:?}")));
+                }
+                tokio::task::yield_now().await;
+            }
+            if let Some((k, res)) = bad {
+                rep.v("C03 C19", format!("ask_join joined with a sibling future that had used {k} units of the task's cooperative budget: the handler's task had finished with 252, ask_join returned {res}"));
+            }
+            let _ = r.kill();
         }
         rep.s("askjoin", format!("cases={n}"));
     });
@@ -1557,7 +1590,7 @@ fn queuedask(rep: &mut Report) {
             let res = tokio::time::timeout(Duration::from_secs(5), jh).await;
             let l = log.lock().unwrap().clone();
             if res.is_err() || l != vec!["h 7".to_string(), "stop false".to_string()] {
-                rep.v("C01 C07 C11", format!("queuedask(abandoned by {how}): the accepted request must be handled before the unreferenced actor ends gracefully; ended={}, log {l:?} (expected [h 7, stop false])", res.is_ok()));
+                rep.v("C01 C07 C11 C12", format!("queuedask(abandoned by {how}): the accepted request must be handled before the unreferenced actor ends gracefully; ended={}, log {l:?} (expected [h 7, stop false])", res.is_ok()));
             }
         }
         rep.s("queuedask", format!("cases={cases}"));
@@ -1802,6 +1835,31 @@ fn late(rep: &mut Report) {
             let order = log.lock().unwrap().clone();
             if let Err(e) = &res {
                 rep.v("C10", format!("late(reply sent early, asker polled late, call made from the main task): ask_with_timeout(60 ms) was answered at once (handled: {order:?}), the runtime thread was then busy for 200 ms; the call returned {e:?} after {el:?} instead of the reply that was already there"));
+            }
+            let _ = r.kill();
+        }
+        // the same for a send: the slot is freed (and promised to the waiting sender) well before the deadline, the runtime
+        // thread is then busy past it, the sender - the runtime's main task - is polled only after the timer has fired
+        {
+            cases += 1;
+            let log = Arc::new(Mutex::new(vec![]));
+            let (r, _jh) = spawn_with_mailbox_capacity::<G>(log.clone(), 1);
+            let (gt, gr) = tokio::sync::oneshot::channel();
+            r.tell(Gate(gr)).await.unwrap();
+            tokio::task::yield_now().await; // the actor is inside the gate handler
+            r.tell(Busy(200)).await.unwrap(); // fills the only slot; its handler will keep the thread busy for 200 ms
+            let opener = tokio::spawn(async move {
+                let _ = gt.send(());
+            });
+            let t0 = Instant::now();
+            let res = r.tell_with_timeout(Item(11), Duration::from_millis(60)).await;
+            let el = t0.elapsed();
+            let _ = opener.await;
+            tokio::time::sleep(Duration::from_millis(30)).await;
+            let handled = log.lock().unwrap().contains(&11);
+            match &res {
+                Ok(()) if handled => {}
+                other => rep.v("C09 C10", format!("late(slot freed early, sender polled late): a tell_with_timeout(60 ms) was waiting on a full capacity-1 mailbox; the actor took the queued message at once (freeing the slot for the waiting sender) and then kept the runtime thread busy for 200 ms; the call returned {other:?} after {el:?}, message handled = {handled} (the slot was there before the deadline: Ok, and the message is delivered)")),
             }
             let _ = r.kill();
         }
@@ -2361,6 +2419,31 @@ fn blocking(rep: &mut Report) {
         let _ = full.kill();
         let _ = idle2.kill();
     }
+    // (b14) failures leave nothing behind: after many failed timed blocking calls a timed call to a live actor works as ever
+    {
+        note("blocking (b14): 80 timed blocking calls to an actor that has ended, then timed calls to a live, idle actor".into());
+        let log = Arc::new(Mutex::new(vec![]));
+        let (dead, jd) = rt.block_on(async { spawn_with_mailbox_capacity::<B>((log.clone(), 0), 4) });
+        let _ = dead.kill();
+        rt.block_on(async { let _ = tokio::time::timeout(Duration::from_secs(5), jd).await; });
+        let mut fails = 0;
+        for k in 0..80u32 {
+            let r = if k % 2 == 0 { dead.blocking_tell(W(k), Some(Duration::from_millis(50))).map(|_| 0) } else { dead.blocking_ask(W(k), Some(Duration::from_millis(50))) };
+            if matches!(r, Err(rsactor::Error::Send { .. })) {
+                fails += 1;
+            }
+        }
+        let (live, _jl) = rt.block_on(async { spawn_with_mailbox_capacity::<B>((log.clone(), 0), 4) });
+        let t0 = Instant::now();
+        let a = live.blocking_tell(W(61), Some(Duration::from_millis(500)));
+        let b = live.blocking_ask(W(62), Some(Duration::from_millis(500)));
+        let el = t0.elapsed();
+        calls += 82;
+        if fails != 80 || !matches!(a, Ok(())) || !matches!(b, Ok(62)) || el > Duration::from_millis(400) {
+            rep.v("C17 C10", format!("{fails} of 80 timed blocking calls to an ended actor failed with Err(Send); afterwards blocking_tell(.., Some(500 ms)) to a live idle actor returned {a:?} and blocking_ask returned {b:?}, {el:?} in all (both complete at once: earlier failures leave nothing behind)"));
+        }
+        let _ = live.kill();
+    }
     // (b8) what a blocking_tell with a timeout returns agrees with what happened to the message, also when the
     //      actor ends right after handling it
     {
@@ -2495,8 +2578,13 @@ fn ids(rep: &mut Report) {
         ths.push(std::thread::spawn(move || {
             let _g = h.enter();
             let mut mine = vec![];
-            for _ in 0..2000 {
-                let (r, _jh) = spawn::<J>(());
+            for k in 0..2000u32 {
+                // every way of creating an actor draws from the one id space
+                let (r, _jh) = match k % 3 {
+                    0 => spawn::<J>(()),
+                    1 => spawn_with_mailbox_capacity::<J>((), 1 + (k as usize % 7)),
+                    _ => spawn_with_mailbox_capacity::<J>((), 32),
+                };
                 let w = ActorRef::downgrade(&r);
                 let c = r.clone();
                 let id = r.identity().id;
@@ -2519,7 +2607,7 @@ fn ids(rep: &mut Report) {
     v.sort();
     v.dedup();
     if v.len() != n {
-        rep.v("C11", format!("{} actors spawned from 16 threads share ids ({} distinct)", n, v.len()));
+        rep.v("C11", format!("{} actors created from 16 threads with spawn() and spawn_with_mailbox_capacity() share ids ({} distinct)", n, v.len()));
     }
     rep.s("ids", format!("spawned={n} distinct={}", v.len()));
     drop(rt);
@@ -2886,6 +2974,31 @@ fn refs(rep: &mut Report) {
     let rt = tokio::runtime::Builder::new_current_thread().enable_time().build().unwrap();
     let mut cases = 0u64;
     rt.block_on(async {
+        // stop() and then kill() through the very same handle while the actor is busy and has a backlog: the kill is a kill
+        // (on_stop(true), the backlog is not worked off), directly and through a Box<dyn ActorControl>
+        for erased in [false, true] {
+            cases += 1;
+            note(format!("refs: stop() then kill() through one handle, busy actor with a backlog (erased={erased})"));
+            let log = Arc::new(Mutex::new(vec![]));
+            let (r, jh) = spawn_with_mailbox_capacity::<Cx>(log.clone(), 8);
+            let (gtx, grx) = tokio::sync::oneshot::channel();
+            r.tell(Gate(grx)).await.unwrap();
+            tokio::task::yield_now().await;
+            for k in 1..=3u32 {
+                r.tell(Item(k)).await.unwrap();
+            }
+            let ctl: Box<dyn ActorControl> = Box::new(r.clone());
+            let (s1, k1) = if erased { (ctl.stop().await.is_ok(), ctl.kill().is_ok()) } else { (r.stop().await.is_ok(), r.kill().is_ok()) };
+            let _ = gtx.send(());
+            let res = tokio::time::timeout(Duration::from_secs(5), jh).await;
+            let l = log.lock().unwrap().clone();
+            let killed = matches!(&res, Ok(Ok(x)) if x.was_killed());
+            let worked = l.iter().filter(|x| x.starts_with("h ")).count();
+            if !s1 || !k1 || !killed || !l.iter().any(|x| x == "stop true") || worked > 1 {
+                rep.v(if erased { "C16 C06" } else { "C06 C05" }, format!("stop() then kill() {} on an actor parked in a handler with three messages queued: stop ok={s1}, kill ok={k1}; the actor ended with killed={killed}, log {l:?} (a kill pre-empts the backlog and the stop marker: on_stop(killed=true), at most one further handler)", if erased { "through one Box<dyn ActorControl>" } else { "on the ActorRef" }));
+            }
+            drop(ctl);
+        }
         for what in ["stop", "tell", "kill"] {
             for erased in [false, true] {
                 cases += 1;
